@@ -19,18 +19,20 @@ use vrp_pragmatic::format::solution::deserialize_solution;
 
 fn corpus(tier: Tier) -> Vec<(String, PProblem)> {
     let mut out = vec![];
-    for (name, problems) in all_families(Tier::Quick) {
-        if ["unreach", "infeasible", "shape", "attr"].contains(&name) {
+    for (name, problems) in all_families(tier) {
+        // thorough: skills, priorities, groups, compatibility and the objective shapes too
+        let skipped: &[&str] = if tier == Tier::Quick { &["unreach", "infeasible", "shape", "attr"] } else { &["unreach", "infeasible"] };
+        if skipped.contains(&name) {
             continue;
         }
         let per = match (name, tier) {
             ("core", Tier::Quick) => 80,
-            ("core", _) => 400,
             ("places", _) => 400,
             // reloads, shared resources, breaks, vehicles with two shifts: every problem
             ("cond", _) => 400,
             (_, Tier::Quick) => 16,
-            _ => 60,
+            // thorough: every problem of every family
+            _ => usize::MAX,
         };
         let candidates: Vec<PProblem> = problems.into_iter().filter(|p| p.jobs.len() >= 2).collect();
         let step = (candidates.len() / per.max(1)).max(1);
@@ -44,6 +46,12 @@ fn corpus(tier: Tier) -> Vec<(String, PProblem)> {
     let req = family_reqbreak();
     let step = tier.pick(4, 1);
     out.extend(req.into_iter().step_by(step).map(|p| ("reqbreak".to_string(), p)));
+    if tier != Tier::Quick {
+        // NOTE: time dependent matrices are left out: the checker declares them unsupported itself
+        // ("not implemented: time aware routing check"), the property speaks of the supported features
+        out.extend(family_mixed10().into_iter().map(|p| ("mixed10".to_string(), p)));
+        out.extend(family_line12().into_iter().map(|p| ("line12".to_string(), p)));
+    }
     out
 }
 
@@ -407,10 +415,14 @@ fn judge_pair(family: &str, problem: &PProblem, cfg: &SolveCfg, report: &mut Rep
 pub fn worker(ctx: &RunCtx, shard: usize, of: usize, _extra: &Extra) -> Report {
     let mut report = Report::new("fault_enumeration");
     let corpus = corpus(ctx.tier);
-    let cfgs = [
+    let mut cfgs = vec![
         SolveCfg { generations: 3, ..SolveCfg::default() },
         SolveCfg { population: PopKind::Greedy, hyper: HyperKind::Static, generations: 1, seed: 1, ..SolveCfg::default() },
     ];
+    if ctx.tier != Tier::Quick {
+        cfgs.push(SolveCfg { generations: 0, seed: 2, ..SolveCfg::default() });
+        cfgs.push(SolveCfg { population: PopKind::Elitism, hyper: HyperKind::Static, generations: 12, seed: 3, ..SolveCfg::default() });
+    }
     for (idx, (family, problem)) in corpus.iter().enumerate() {
         if idx % of != shard {
             continue;
